@@ -12,9 +12,12 @@ use serde_json::json;
 use crate::common::*;
 use crate::util::*;
 
-pub const KEYS: [&str; 6] = ["", "a", "ab", "abc", "b", "é"];
+/// Indices 0..6 are the small alphabet (used by the exhaustive enumeration); the rest are
+/// order-boundary keys for the random sequences: the greatest scalar value U+10FFFF (alone,
+/// followed by something, after a prefix), U+0000 after a prefix, the last BMP character.
+pub const KEYS: [&str; 11] = ["", "a", "ab", "abc", "b", "é", "\u{10FFFF}", "\u{10FFFF}x", "a\u{10FFFF}b", "ab\u{0}", "a\u{FFFF}"];
 pub const VALUES: [&str; 3] = ["", "x", "y"];
-pub const PREFIXES: [&str; 8] = ["", "a", "ab", "abc", "abcd", "b", "é", "c"];
+pub const PREFIXES: [&str; 11] = ["", "a", "ab", "abc", "abcd", "b", "é", "c", "\u{10FFFF}", "a\u{10FFFF}", "a\u{FFFF}"];
 pub const GRACE_NS: u64 = 10_000_000_000;
 
 #[derive(Clone, Copy, Debug, PartialEq, Eq, Serialize, Deserialize)]
@@ -459,7 +462,7 @@ pub fn exec_kv(case: &KvCase, tally: &mut Tally, prop: &str) -> Result<(), Failu
 }
 
 fn kop_strategy(replica: bool) -> BoxedStrategy<KOp> {
-    let k = 0u8..6;
+    let k = prop_oneof![5 => 0u8..6, 1 => 6u8..11];
     let v = 0u8..3;
     let mut options: Vec<(u32, BoxedStrategy<KOp>)> = vec![
         (6, (k.clone(), v.clone()).prop_map(|(k, v)| KOp::Set(k, v)).boxed()),
